@@ -25,7 +25,12 @@ func c04ReceivedContext(ctx *core.Ctx, r *RT) {
 	// the value whose AddRequestHeader is called
 	var recvs []ssa.Value
 	var adds []ssax.Call
-	for _, c := range ssax.Calls(rr) {
+	var calls []ssax.Call
+	calls = append(calls, ssax.Calls(rr)...)
+	for _, an := range rr.AnonFuncs { // a visitor handed to an iteration helper
+		calls = append(calls, ssax.Calls(an)...)
+	}
+	for _, c := range calls {
 		if c.ShortName() == "AddRequestHeader" && len(c.Args()) == 3 {
 			adds = append(adds, c)
 			v := ssax.Strip(c.Args()[0])
@@ -148,6 +153,9 @@ func c04ReceivedContext(ctx *core.Ctx, r *RT) {
 				}
 			}
 		}
+		if vis := c.Instr.Parent(); !ok && vis != rr && len(vis.Params) == 2 && ssax.Strip(args[1]) == ssa.Value(vis.Params[0]) && ssax.Strip(args[2]) == ssa.Value(vis.Params[1]) {
+			ok = visitorFedDecodedPairs(rr, vis, headers)
+		}
 		ctx.Check(ok, "C04.S8", rn+" › AddRequestHeader("+c.Args()[1].Name()+") adds a decoded pair or the op id", r.IPos(c.Instr), "(name, value) of the decoded map, or _opid", "the reader invents a request header that was not on the wire")
 	}
 }
@@ -155,4 +163,63 @@ func c04ReceivedContext(ctx *core.Ctx, r *RT) {
 func fieldName(fa *ssa.FieldAddr) string {
 	t := fa.X.Type().Underlying().(*types.Pointer).Elem().Underlying().(*types.Struct)
 	return structFieldName(t, fa.Field)
+}
+
+// visitorFedDecodedPairs: the closure vis of host is handed, together with the
+// decoded map, to a function of the package whose only calls of it pass the
+// (key, value) of a range over that map.
+func visitorFedDecodedPairs(host, vis *ssa.Function, headers ssa.Value) bool {
+	if headers == nil {
+		return false
+	}
+	fed := false
+	for _, c := range ssax.Calls(host) {
+		g := c.Static
+		if g == nil || g.Pkg != host.Pkg || len(g.Blocks) == 0 {
+			continue
+		}
+		mi, vi := -1, -1
+		for i, a := range c.Common.Args {
+			if ssax.Strip(a) == headers {
+				mi = i
+			}
+			if mc, ok := ssax.Strip(a).(*ssa.MakeClosure); ok && mc.Fn == ssa.Value(vis) {
+				vi = i
+			}
+		}
+		if vi < 0 {
+			continue
+		}
+		if mi < 0 || mi >= len(g.Params) || vi >= len(g.Params) {
+			return false
+		}
+		fp := g.Params[vi]
+		if fp.Referrers() == nil {
+			return false
+		}
+		for _, u := range *fp.Referrers() {
+			call, ok := u.(*ssa.Call)
+			if !ok || call.Call.Value != ssa.Value(fp) || len(call.Call.Args) != 2 {
+				if _, isDbg := u.(*ssa.DebugRef); isDbg {
+					continue
+				}
+				return false // the visitor escapes or is called differently
+			}
+			ke, ok1 := ssax.Strip(call.Call.Args[0]).(*ssa.Extract)
+			ve, ok2 := ssax.Strip(call.Call.Args[1]).(*ssa.Extract)
+			if !ok1 || !ok2 || ke.Tuple != ve.Tuple || ke.Index != 1 || ve.Index != 2 {
+				return false
+			}
+			nx, isN := ke.Tuple.(*ssa.Next)
+			if !isN {
+				return false
+			}
+			rg, isR := nx.Iter.(*ssa.Range)
+			if !isR || ssax.Strip(rg.X) != ssa.Value(g.Params[mi]) {
+				return false
+			}
+			fed = true
+		}
+	}
+	return fed
 }
